@@ -50,6 +50,9 @@ class LRUCache(object):
         while len(self._cache) > self._capacity:
             self._cache.popitem(last=False)
 
+    def discard(self, key: PyHash) -> None:
+        self._cache.pop(key, None)
+
 
 class LRUCacheStore(Store):
     """
@@ -98,6 +101,8 @@ class LRUCacheStore(Store):
         """
         _logger.debug(f"store_blob key {key}")
         self._store.store_blob(key, blob, codec)
+        # The object fetched earlier under this key (if any) is not what the store holds any more.
+        self._cache.discard(key)
 
     def sync_paths(self, paths: "OrderedDict[DDSPath, PyHash]") -> None:
         _logger.debug(f"sync_paths {paths}")
